@@ -63,7 +63,7 @@ pub const OPS_C02: [&str; 21] = [
     "deletion-of-own-row-dated-after-author-was-disabled",
 ];
 pub const OPS_C06: [&str; 5] = ["reference-splice-entity-label", "signing-oracle-node", "signing-oracle-reference", "row-splice-json-binary", "row-splice-entity-json"];
-pub const OPS_C07: [&str; 10] = [
+pub const OPS_C07: [&str; 11] = [
     "older-definition-with-entries-omitted",
     "user-entry-reattached-as-admin",
     "self-signed-admin-entry",
@@ -74,6 +74,7 @@ pub const OPS_C07: [&str; 10] = [
     "existing-reference-signed-again-by-the-adversary",
     "entries-omitted-while-a-legitimate-entry-is-added",
     "user-entry-signed-by-a-revoked-user-admin",
+    "existing-entry-altered-under-the-same-id",
 ];
 
 #[derive(Clone, Debug, Serialize, Deserialize)]
@@ -1327,6 +1328,20 @@ fn craft_definition(c: &mut Ctx, op: &'static str) -> Result<Option<dv::RoomNode
             let e = sign_edge(e0.src, &e0.src_entity, &e0.label, e0.dest)?;
             rn.admin_edges.retain(|x| x.dest != e0.dest);
             rn.admin_edges.push(e);
+        }
+        "existing-entry-altered-under-the-same-id" => {
+            // an entry the victim stores, same id, other content, signed again by the adversary: the all-rights entry of the
+            // full group turned into "no right", or the honest admin's entry turned into "disabled"
+            c.counter += 1;
+            if c.counter % 2 == 0 {
+                let e = &mut rn.auth_nodes[g_full].right_nodes[0];
+                e.node._json = e.node._json.clone().map(|j| j.replace("true", "false"));
+                e.node.sign(&mkey).map_err(|e| e.to_string())?;
+            } else {
+                let e = &mut rn.admin_nodes[0];
+                e.node._json = e.node._json.clone().map(|j| j.replace("true", "false"));
+                e.node.sign(&mkey).map_err(|e| e.to_string())?;
+            }
         }
         "user-entry-signed-by-a-revoked-user-admin" => {
             // the group of which M WAS the user admin: M adds itself as a user, dated now (after the revocation)
